@@ -593,7 +593,7 @@ def rules_for(prop: str, tier: str) -> List[RuleDef]:
 
 CURRENT_REPO = None
 RESTRUCTURED_STMTS = 6
-UNGATED_RULES = {"C11.1", "C10.11", "C14.7", "C20.13", "C18.10", "C16.16", "C08.11", "C05.14", "C12.18", "C13.9", "C06.11", "C07.13", "C10.12", "C05.15", "C10.13", "C10.14", "C16.17", "C10.15", "C02.8", "C17.13", "C13.10", "C20.15", "C01.10"}  # rules that interpret whatever code is there (per-site lints, tabulations over the constructs they find): a report from them is a verdict on the code as it is now
+UNGATED_RULES = {"C11.1", "C10.11", "C14.7", "C20.13", "C18.10", "C16.16", "C08.11", "C05.14", "C12.18", "C13.9", "C06.11", "C07.13", "C10.12", "C05.15", "C10.13", "C10.14", "C16.17", "C10.15", "C02.8", "C17.13", "C13.10", "C20.15", "C01.10", "C01.11"}  # rules that interpret whatever code is there (per-site lints, tabulations over the constructs they find): a report from them is a verdict on the code as it is now
 
 
 def _restructured(repo: "Repo", qual: str, _alpha) -> Optional[str]:
